@@ -73,6 +73,37 @@ Definition whole_array_usage (es : list event) : N :=
 Definition is_chunk_event (e : event) : bool := match e with EArrayChunk _ _ | EArrayData _ => true | _ => false end.
 Definition no_chunks (es : list event) : bool := forallb (fun e => negb (is_chunk_event e)) es.
 
+(* [chunk_side cfg es]: either the configuration has no array-size limit, or the event list has no
+   chunked arrays (the part of the array-size limit the exactness theorem does not cover) *)
+Definition chunk_side (cfg : rcfg) (es : list event) : Prop := max_array_size_bytes cfg = 0 \/ no_chunks es = true.
+
+(* chunked arrays: the bytes announced by the chunk headers of one array, summed the way the
+   validator sums them (64-bit wrap-around included); the largest such sum *)
+Definition chunk_bytes (t : arrty) (n : N) : N :=
+  if is_stringlike_validated t then n
+  else match array_bits t with Some b => elem_byte_count b n | None => 0 end.
+Fixpoint chunked_scan (t : arrty) (total : N) (es : list event) : N :=
+  match es with
+  | [] => total
+  | e :: r =>
+    match e with
+    | EArrayBegin t' => N.max total (chunked_scan t' 0 r)
+    | EMediaBegin _ => N.max total (chunked_scan AT_Media 0 r)
+    | ECustomBegin t' _ => N.max total (chunked_scan t' 0 r)
+    | EArrayChunk n _ =>
+        if n =? 0 then chunked_scan t total r
+        else N.max total (chunked_scan t ((total + chunk_bytes t n) mod two64) r)
+    | _ => chunked_scan t total r
+    end
+  end.
+Definition chunked_array_usage (es : list event) : N := chunked_scan 0 0 es.
+
+(* the configuration whose object, depth and identifier limits are exactly the usage of [es] *)
+Definition usage_cfg (cfg : rcfg) (es : list event) : rcfg :=
+  {| max_object_count := object_usage es; max_container_depth := depth_usage es;
+     max_array_size_bytes := max_array_size_bytes cfg; max_identifier_length := ident_usage es;
+     max_local_reference_count := max_local_reference_count cfg; expected_version := expected_version cfg |}.
+
 (* the usage of an event list is within the limits of a configuration *)
 Definition within_limits (cfg : rcfg) (es : list event) : Prop :=
   object_usage es <= max_object_count cfg /\
@@ -80,3 +111,157 @@ Definition within_limits (cfg : rcfg) (es : list event) : Prop :=
   length_ok cfg (whole_array_usage es) = true /\
   ident_usage es <= max_identifier_length cfg /\
   marker_usage es <= max_local_reference_count cfg.
+
+(* ---- markers and references on event lists (C13) ---- *)
+Definition marker_ids (es : list event) : list bytes :=
+  flat_map (fun e => match e with EMarker id => [id] | _ => [] end) es.
+Definition is_padding (e : event) : bool := match e with EPadding => true | _ => false end.
+(* events that may not follow a marker *)
+Definition not_markable_event (e : event) : bool :=
+  match e with EMarker _ | ERefLocal _ | ERecordType _ => true | _ => false end.
+
+(* observations of the model state after an accepted event list *)
+Definition state_after (cfg : rcfg) (es : list event) : option rctx :=
+  match run cfg es with (c, _, None) => Some c | _ => None end.
+Definition rule_in_force (cfg : rcfg) (es : list event) : option rule :=
+  match state_after cfg es with Some c => Some (e_rule (cur c)) | None => None end.
+Definition marked_type (cfg : rcfg) (es : list event) (id : bytes) : option N :=
+  match state_after cfg es with Some c => alookup id (marked c) | None => None end.
+Definition container_depth (cfg : rcfg) (es : list event) : option N :=
+  match state_after cfg es with Some c => Some (depth c) | None => None end.
+
+(* ------------------------------------------------------------------------- *)
+(* Document trees (C10 c)                                                     *)
+(* ------------------------------------------------------------------------- *)
+(* The fragment WITHOUT markers, local references, chunked arrays, media and custom types:
+   scalars, arrays delivered whole, lists, maps with scalar or string keys, nodes, edges with three
+   components, records of declared arity; padding and comments wherever the validator allows them;
+   record types before the single top-level value. *)
+Inductive trivia := TPad | TComment (multi : bool) (text : bytes).
+Definition trivia_event (t : trivia) : event :=
+  match t with TPad => EPadding | TComment m x => EComment m x end.
+
+Inductive val :=
+| VLeaf (e : event)                                  (* a value delivered in one event *)
+| VT (t : trivia) (v : val)                          (* padding / a comment before a value *)
+| VList (items : list val) (close : list trivia)
+| VMap (entries : list (list trivia * event * val)) (close : list trivia)   (* trivia, key, value *)
+| VNode (v : val) (items : list val) (close : list trivia)
+| VEdge (src desc dst : val) (close : list trivia)
+| VRecord (id : bytes) (fields : list val) (close : list trivia).
+
+Fixpoint flatten (v : val) : list event :=
+  match v with
+  | VLeaf e => [e]
+  | VT t v => trivia_event t :: flatten v
+  | VList items close => EList :: flat_map flatten items ++ map trivia_event close ++ [EEnd]
+  | VMap entries close =>
+      EMap :: flat_map (fun en => let '(tv, k, v) := en in map trivia_event tv ++ k :: flatten v) entries
+           ++ map trivia_event close ++ [EEnd]
+  | VNode v items close => ENode :: flatten v ++ flat_map flatten items ++ map trivia_event close ++ [EEnd]
+  | VEdge s d t close => EEdge :: flatten s ++ flatten d ++ flatten t ++ map trivia_event close ++ [EEnd]
+  | VRecord id fields close => ERecord id :: flat_map flatten fields ++ map trivia_event close ++ [EEnd]
+  end.
+
+(* nesting depth *)
+Definition list_max (l : list N) : N := fold_right N.max 0 l.
+Fixpoint height (v : val) : N :=
+  match v with
+  | VLeaf _ => 0
+  | VT _ v => height v
+  | VList items _ => 1 + list_max (map height items)
+  | VMap entries _ => 1 + list_max (map (fun en => let '(_, _, v) := en in height v) entries)
+  | VNode v items _ => 1 + N.max (height v) (list_max (map height items))
+  | VEdge s d t _ => 1 + N.max (height s) (N.max (height d) (height t))
+  | VRecord _ fields _ => 1 + list_max (map height fields)
+  end.
+
+Definition is_null_event (e : event) : bool :=
+  match e with ENull | EBigInt None | EBigFloat None | EBigDecimal None => true | _ => false end.
+
+(* values delivered in one event: scalars, and arrays that pass the validator's full-array checks *)
+Definition leaf_ok (cfg : rcfg) (e : event) : bool :=
+  match e with
+  | ENull | EBool _ | ETrue | EFalse | EPosInt _ | ENegInt _ | EInt _ | EBigInt _
+  | EFloat _ | EBigFloat _ | EDecimal _ | EBigDecimal _ | ENan _ | EUid _ | ETime _ => true
+  | EArray t n d =>
+      array_api_ok t && validate_full_array_any cfg t n d && assert_array_type t Allow_NonNull && assert_array_type t Allow_Any
+  | EStringArray t d =>
+      array_api_ok t && validate_full_array_stringlike cfg t d && assert_array_type t Allow_NonNull && assert_array_type t Allow_Any
+  | _ => false
+  end.
+
+(* map keys and record-type field names: keyable scalars and whole strings / resource ids *)
+Definition key_of (e : event) : option rawkey :=
+  match e with
+  | EBool b => Some (RkBool b) | ETrue => Some (RkBool true) | EFalse => Some (RkBool false)
+  | EPosInt n => Some (RkUint64 n) | ENegInt n => Some (RkNegint n) | EInt z => Some (RkInt64 z)
+  | EBigInt (Some z) => Some (RkBigInt z)
+  | EUid b => Some (RkBytes b) | ETime s => Some (RkTime s)
+  | EStringArray t d => if t =? AT_String then Some (RkString d) else if t =? AT_ResourceID then Some (RkRid d) else None
+  | _ => None
+  end.
+Definition key_ok (cfg : rcfg) (e : event) : bool :=
+  match key_of e with
+  | Some _ => match e with EStringArray t d => validate_full_array_stringlike cfg t d | _ => true end
+  | None => false
+  end.
+Definition nkey_of (e : event) : option nkey := option_map norm_key (key_of e).
+(* pairwise distinct after NotifyKey's normalisation (C12: i.e. pairwise distinct values) *)
+Fixpoint nkeys_distinct (ks : list (option nkey)) : bool :=
+  match ks with
+  | [] => true
+  | None :: _ => false
+  | Some k :: r => negb (existsb (fun x => match x with Some k' => nkey_eqb k k' | None => false end) r) && nkeys_distinct r
+  end.
+
+(* [wf_val cfg rts nonnull v]: [rts] = the declared record types (name -> arity); [nonnull] = the
+   position does not admit null (edge source and destination) *)
+Fixpoint wf_val (cfg : rcfg) (rts : list (bytes * N)) (nonnull : bool) (v : val) : bool :=
+  match v with
+  | VLeaf e => leaf_ok cfg e && negb (nonnull && is_null_event e)
+  | VT _ v => wf_val cfg rts nonnull v
+  | VList items _ => forallb (wf_val cfg rts false) items
+  | VMap entries _ =>
+      forallb (fun en => let '(_, k, v) := en in key_ok cfg k && wf_val cfg rts false v) entries &&
+      nkeys_distinct (map (fun en => let '(_, k, _) := en in nkey_of k) entries)
+  | VNode v items _ => wf_val cfg rts false v && forallb (wf_val cfg rts false) items
+  | VEdge s d t _ => wf_val cfg rts true s && wf_val cfg rts false d && wf_val cfg rts true t
+  | VRecord id fields _ =>
+      validate_identifier cfg id &&
+      match alookup id rts with Some n => N.of_nat (length fields) =? n | None => false end &&
+      forallb (wf_val cfg rts false) fields
+  end.
+
+(* documents: record types (and trivia) first, then the one top-level value *)
+Inductive top_item :=
+| TopTrivia (t : trivia)
+| TopRecType (id : bytes) (fields : list event) (close : list trivia).
+Record doc := { d_pre : list top_item; d_top : val }.
+
+Definition flatten_top (it : top_item) : list event :=
+  match it with
+  | TopTrivia t => [trivia_event t]
+  | TopRecType id fields close => ERecordType id :: fields ++ map trivia_event close ++ [EEnd]
+  end.
+Definition flatten_doc (cfg : rcfg) (d : doc) : list event :=
+  EBeginDoc :: EVersion (expected_version cfg) :: flat_map flatten_top (d_pre d) ++ flatten (d_top d) ++ [EEndDoc].
+
+(* the record types declared by the items, or None when a declaration is ill-formed *)
+Fixpoint declare (cfg : rcfg) (rts : list (bytes * N)) (pre : list top_item) : option (list (bytes * N)) :=
+  match pre with
+  | [] => Some rts
+  | TopTrivia _ :: r => declare cfg rts r
+  | TopRecType id fields _ :: r =>
+      if validate_identifier cfg id && forallb (key_ok cfg) fields && nkeys_distinct (map nkey_of fields) &&
+         match alookup id rts with None => true | Some _ => false end
+      then declare cfg (aset id (N.of_nat (length fields)) rts) r
+      else None
+  end.
+Definition wf_doc (cfg : rcfg) (d : doc) : bool :=
+  match declare cfg [] (d_pre d) with
+  | Some rts => wf_val cfg rts false (d_top d)
+  | None => false
+  end.
+Definition doc_height (d : doc) : N :=
+  N.max (height (d_top d)) (if existsb (fun it => match it with TopRecType _ _ _ => true | _ => false end) (d_pre d) then 1 else 0).
